@@ -41,6 +41,20 @@ def bases(size: str) -> list[dict]:
                 out.append({"name": f"{scope}/{cls}/{preset}/fs{fs}", "cls": cls, "preset": preset,
                             "frames": [f["rows"] for f in frames],
                             "rdf11": all(T.is_rdf11(s) for s in seq)})
+    # big, not-a-power-of-two tables filled beyond 128 entries (prefix table 150, 140 used)
+    from mc.terms import I, L  # noqa: PLC0415
+
+    for cls in ("triple", "quad"):
+        seq = []
+        for i in range(140):
+            st = (I(f"http://p{i}.example/n{i}"), I(f"http://p{i}.example/p"),
+                  L(str(i), None, f"http://d/{i % 20}"))
+            seq.append(st if cls == "triple" else (*st, I(f"http://p{i}.example/g")))
+        preset = (4000, 150, 32)
+        data = DR.g_write(seq, cls, DR.make_options(cls, preset, 100, True))
+        frames = jwire.read_delimited(data)
+        out.append({"name": f"big150/{cls}", "cls": cls, "preset": preset,
+                    "frames": [f["rows"] for f in frames], "rdf11": True, "big": True})
     return out
 
 
@@ -99,6 +113,12 @@ def mutants_at(base, pos: int):
         yield f"{kind}-entry-id-zero-form-beyond-size", insert(
             [jwire.mkrow(kind, {"id": size, "value": "zz"}),
              jwire.mkrow(kind, {"id": 0, "value": "zz2"})])
+    # an additional entry beyond the declared size, the rest of the stream stays as it is
+    if kind in ("triple", "quad", "name", "prefix", "datatype", "graph_start"):
+        for tk in ("name", "prefix", "datatype"):
+            if sizes[tk]:
+                yield f"{tk}-extra-entry-beyond-size", insert(
+                    [jwire.mkrow(tk, {"id": sizes[tk] + 1, "value": "zz"})])
     # rows of a forbidden kind inserted here
     forbidden = {1: ("quad", "graph_start", "graph_end"), 2: ("triple", "graph_start", "graph_end"),
                  3: ("quad",)}[pt]
@@ -216,7 +236,11 @@ def shard(job) -> dict:
     base = bases(size)[idx]
     acc = pool.Acc()
     rows = flat_rows(base)
-    for pos in range(len(rows)):
+    positions = range(len(rows))
+    if base.get("big"):
+        # long stream: inject at the first rows and at the last rows (tables are full there)
+        positions = list(range(6)) + list(range(len(rows) - 8, len(rows)))
+    for pos in positions:
         for label, frames in mutants_at(base, pos):
             r = judge_mutant(base, frames, label)
             if r is None:
